@@ -1,7 +1,7 @@
 (* C01 - single-ended calibration is the weighted least-squares fit, with its covariance.  Statements only. *)
 From Coq Require Import List ZArith QArith Qabs Bool Arith.
 Import ListNotations.
-Require Import DTS.Base.Dyadic DTS.Base.WLS DTS.Model.Layout DTS.Model.Design DTS.Corr.WlsC DTS.Proofs.WlsCP DTS.Proofs.DesignP.
+Require Import DTS.Base.Dyadic DTS.Base.WLS DTS.Model.Layout DTS.Model.Design DTS.Corr.WlsC DTS.Proofs.WlsCP DTS.Proofs.CovP DTS.Proofs.DesignP.
 Local Open Scope Q_scope.
 
 Notation qrows := (list (row (P:=param))).
@@ -57,6 +57,26 @@ Theorem C01_zero_gradient_is_the_wls_optimum rows p cols :
   (forall a, In a cols -> D2Q (dGa rows p a) == 0) ->
   forall q, S (map qrow rows) (qpar p) <= S (map qrow rows) q.
 Proof. exact (exact_gradient_zero_is_optimum rows p cols). Qed.
+(* the covariance judge: a `true` verdict bounds every entry of N*C - s2*I (N = X'WX of the rows, C = reported p_cov) and the mismatch
+   between (n-p)*s2 and the weighted residual sum of squares ... *)
+Theorem C01_covariance_test_sound e ef rows p cols cov : cov_ok e ef rows p cols cov = true ->
+  let s2 := s2q rows cols cov in
+  let dof := inject_Z (Z.of_nat (length rows) - Z.of_nat (length cols)) in
+  0 < dof /\
+  (forall a b, In a cols -> In b cols ->
+     let rhs := if param_eqb a b then s2 else 0 in
+     Qabs (NCq rows cols cov a b - rhs) <= Qpower 2 e * (NCabsq rows cols cov a b + Qabs rhs) + Qpower 2 (-40) * Qabs s2) /\
+  Qabs (dof * s2 - S (map qrow rows) (qpar p)) <=
+     Qpower 2 e * (Qabs (dof * s2) + S (map qrow rows) (qpar p)) + Qpower 2 ef * D2Q (dY2 rows p).
+Proof. exact (cov_ok_sound e ef rows p cols cov). Qed.
+(* ... and in the exact limit that identity determines the covariance: a symmetric C with N*C = s*I on the columns is unique (= s * inverse of N) *)
+Theorem C01_covariance_identity_determines_the_covariance (cols : list param) (N C1 C2 : param -> param -> Q) (s : Q) :
+  NoDup cols -> ~ s == 0 ->
+  (forall a b, N a b == N b a) -> (forall a b, C2 a b == C2 b a) ->
+  (forall a b, In a cols -> In b cols -> mulq param cols N C1 a b == delta param param_eqb s a b) ->
+  (forall a b, In a cols -> In b cols -> mulq param cols N C2 a b == delta param param_eqb s a b) ->
+  forall a b, In a cols -> In b cols -> C1 a b == C2 a b.
+Proof. intros Hnd. exact (cov_identity_unique param param_eqb param_eqb_spec cols Hnd N C1 C2 s). Qed.
 Theorem C01_columns_listed_once nt nx nta wa : NoDup (cols_se nt nx nta wa).
 Proof. exact (cols_se_NoDup nt nx nta wa). Qed.
 
@@ -69,4 +89,4 @@ Print Assumptions C01_normal_equations_minimise. Print Assumptions C01_minimiser
 Print Assumptions C01_fitted_values_unique. Print Assumptions C01_column_normal_equations.
 Print Assumptions C01_rows_are_the_raman_equations. Print Assumptions C01_weight_own_cell. Print Assumptions C01_weight_as_coded_refuted.
 Print Assumptions C01_weight_as_coded_partial. Print Assumptions C01_residual_test_sound. Print Assumptions C01_zero_gradient_is_the_wls_optimum.
-Print Assumptions C01_columns_listed_once.
+Print Assumptions C01_columns_listed_once. Print Assumptions C01_covariance_test_sound. Print Assumptions C01_covariance_identity_determines_the_covariance.
